@@ -639,6 +639,8 @@ def gen_faults(rng, script, nsigs, ncalls_hint, kinds):
         return [(k, "swap %d %d" % (rng.randrange(0, n), rng.randrange(0, n)))]
     if kind == "subst":
         return [(k, "subst %d %d" % (rng.randrange(0, n), rng.randrange(0, nsigs)))]
+    if kind == "widen":
+        return [(k, "widen %d" % rng.randrange(0, n))]
     raise ValueError(kind)
 
 
